@@ -321,6 +321,9 @@ def generate_large(r, n):
         g = {'enc': enc, 'units': units, 'repeat': r.randrange(2000, 8000), 'level': r.choice([1, 6, 9]),
              'cuts': [r.randrange(1 << 20) for _ in range(r.randrange(0, 4))], 'block': r.choice([0, 4096, 4096, 4096, 1024]),
              'cut': r.choice([0, 0, 0, 0, 1, 3, 5])}
+        if i % 6 in (1, 2):
+            # every third deflate body: read-sized pieces of a complete stream whose every piece inflates to a megabyte or more
+            g.update(block=4096, cut=0, repeat=r.randrange(6000, 12000))
         if not g['cuts'] and not g['block']:
             g['cuts'] = [r.randrange(1 << 20)]
         cases.append({'kind': 'KGzip' if enc == 'gzip' else 'KDeflate', 'pieces': [], 'gen': g, 'tag': 'large-' + enc +
@@ -862,7 +865,7 @@ def correspondence(ctx):
         engaged = (c['kind'] == 'KGzip' and body.startswith('1f')) or (c['kind'] == 'KDeflate' and len(body) >= 4)
         if engaged and len(c['pieces']) > 1:
             nontriv.add((c['kind'], tuple(c['pieces'])))
-    large = generate_large(r, 12 if not ctx.thorough else 150)
+    large = generate_large(r, 36 if not ctx.thorough else 150)
     large_res = _impl(large, shard=2)
     large_viol = _violations(large, large_res)
     for c in large:
